@@ -1,7 +1,8 @@
 (* C18/Model.v -- executable model of ak/xlsread.py:
      cell converters (25-161), _coord_sort_key (167-171), XlsObject construction / origin
      recording / get_attr_origin (174-323), binding of rules to the title row incl. range
-     detection (464-573), XlsTableReader.iter_table (587-669)
+     detection (464-573), XlsTableReader.iter_table (587-669) for one object class ([read_table]) and
+     for several object classes read from one table ([read_table_m]: XlsTableReader(r1, ..., rn))
    (line numbers of the source WITH the fix of finding origin-range-string-sort, which adds 7 lines
    at 167; the model is of that repaired code).
    A worksheet is a list of rows of cell values ([cval]); the cell in row r,
@@ -482,8 +483,13 @@ Fixpoint skip_blank (rows : list (list cell)) : list (list cell) :=
   | r :: rest => if row_empty r then skip_blank rest else rows
   end.
 
+(* cells_map.bind_titles_row(cols_names, col_names_ids, known_cols_names) for one object's rules;
+   [known] = the column names claimed by the rules of ALL objects of the table reader *)
+Definition bind_all_k (known : list str) (rules : list rule) (names : list str) : res (list binding) :=
+  map_res (bind_rule known names) rules.
+(* a reader with one object: the known names are its own *)
 Definition bind_all (rules : list rule) (names : list str) : res (list binding) :=
-  map_res (bind_rule (known_names rules) names) rules.
+  bind_all_k (known_names rules) rules names.
 
 (* worksheet.iter_rows(): rows of cells with their coordinates *)
 Fixpoint index_row (r c : nat) (vs : list cval) : list cell :=
@@ -498,20 +504,110 @@ Fixpoint index_rows (r : nat) (sh : list (list cval)) : list (list cell) :=
   end.
 Definition index_sheet (sh : list (list cval)) : list (list cell) := index_rows 0%nat sh.
 
-Definition read_cells (cf : config) (rows : list (list cell)) : list (option obj) * option err :=
+(* One object's view of a reading: the rules [cf] bound to the title row with [known] as the set of
+   column names that are claimed by name (by this object or by the other objects of the reader) *)
+Definition read_cells_k (known : list str) (cf : config) (rows : list (list cell))
+  : list (option obj) * option err :=
   match skip_blank rows with
   | [] => ([], None)
   | title :: body =>
       let names := titles_of title in
-      match bind_all (cf_rules cf) names with
+      match bind_all_k known (cf_rules cf) names with
       | Err e => ([], Some e)
       | Ok bs => iter_rows cf bs (first_some_pos names 0%nat) None body
       end
   end.
+Definition read_table_k (known : list str) (cf : config) (sh : list (list cval))
+  : list (option obj) * option err :=
+  read_cells_k known cf (index_sheet sh).
 
-(* list(iter_table(ws, cls, rules, stop_on=..., ladder_format=...)), item by item *)
+(* list(iter_table(ws, cls, rules, stop_on=..., ladder_format=...)), item by item: the reader has
+   one object, the known column names are those of its own rules.  (The module-level iter_table is
+   XlsTableReader(rules).iter_table unpacked: LemmasMulti.read_table_one ties this definition to
+   [read_table_m] below, and Run.v evaluates single readings through [read_table_m].) *)
 Definition read_table (cf : config) (sh : list (list cval)) : list (option obj) * option err :=
-  read_cells cf (index_sheet sh).
+  read_table_k (known_names (cf_rules cf)) cf sh.
+
+(* ------------------------------------------------------------------ *)
+(* XlsTableReader(rules_1, ..., rules_n).iter_table: several objects per table row *)
+
+Record mconfig : Type := mkMConfig {
+  mc_objs : list (list rule * nat);   (* per object class: rules in _ATTRS order, _NUM_ID_ATTRS *)
+  mc_stop : str;                      (* stop_on *)
+  mc_ladder : bool }.                 (* ladder_format *)
+
+(* the single-object configuration of one of the objects *)
+Definition mc_cf (mc : mconfig) (ob : list rule * nat) : config :=
+  mkConfig (fst ob) (snd ob) (mc_stop mc) (mc_ladder mc).
+(* the part of the configuration the row loop itself looks at (stop_on, ladder_format) *)
+Definition mc_loop (mc : mconfig) : config := mkConfig [] 0%nat (mc_stop mc) (mc_ladder mc).
+
+(* known_cols_names = {col_name for cells_map in self.cells_maps
+                                for col_name in cells_map.get_known_columns_names()} *)
+Definition known_all (objs : list (list rule * nat)) : list str :=
+  flat_map (fun ob => known_names (fst ob)) objs.
+
+(* for cells_map in self.cells_maps: cells_map.bind_titles_row(...): in order, the first failure raises *)
+Definition bind_objs (known names : list str) (objs : list (list rule * nat)) : res (list (list binding)) :=
+  map_res (fun ob => bind_all_k known (fst ob) names) objs.
+
+(* results = [obj_class.construct(... cells_map.cells_from_row(current_row)) for ... in zip(objs_rrules, cells_maps)] *)
+Definition construct_all (objs : list (list rule * nat)) (bss : list (list binding)) (row : list cell)
+  : res (list (option obj)) :=
+  map_res (fun p => construct (fst (fst p)) (snd p) (snd (fst p)) row) (combine objs bss).
+
+Fixpoint iter_rows_m (mc : mconfig) (bss : list (list binding)) (fcp : option nat)
+         (prev : option (list cell)) (rows : list (list cell))
+  : list (list (option obj)) * option err :=
+  match rows with
+  | [] => ([], None)
+  | row :: rest =>
+      match is_end (mc_loop mc) row with
+      | Err e => ([], Some e)
+      | Ok true => ([], None)
+      | Ok false =>
+          let cur := match mc_ladder mc, fcp, prev with
+                     | true, Some f, Some p => fill_row f p row
+                     | _, _, _ => Ok row
+                     end in
+          match cur with
+          | Err e => ([], Some e)
+          | Ok cur =>
+              match construct_all (mc_objs mc) bss cur with
+              | Err e => ([], Some e)
+              | Ok tup => let (ts, e) := iter_rows_m mc bss fcp (Some cur) rest in (tup :: ts, e)
+              end
+          end
+      end
+  end.
+
+Definition read_cells_m (mc : mconfig) (rows : list (list cell)) : list (list (option obj)) * option err :=
+  match skip_blank rows with
+  | [] => ([], None)
+  | title :: body =>
+      let names := titles_of title in
+      match bind_objs (known_all (mc_objs mc)) names (mc_objs mc) with
+      | Err e => ([], Some e)
+      | Ok bss => iter_rows_m mc bss (first_some_pos names 0%nat) None body
+      end
+  end.
+
+(* list(XlsTableReader(rules_1, ..., rules_n).iter_table(ws, stop_on=..., ladder_format=...)): one tuple of objects
+   (or None) per table row, and the exception that ended the iteration, if any *)
+Definition read_table_m (mc : mconfig) (sh : list (list cval)) : list (list (option obj)) * option err :=
+  read_cells_m mc (index_sheet sh).
+
+(* `for (x, ) in table_reader.iter_table(...)` of the module-level iter_table: a tuple that does not
+   have exactly one element raises ValueError (never happens: the reader has one object) *)
+Fixpoint unpack_one (items : list (list (option obj))) (e : option err) : list (option obj) * option err :=
+  match items with
+  | [] => ([], e)
+  | [x] :: rest => let (xs, e') := unpack_one rest e in (x :: xs, e')
+  | _ :: _ => ([], Some ValueErr)
+  end.
+Definition mc_one (cf : config) : mconfig := mkMConfig [(cf_rules cf, cf_nid cf)] (cf_stop cf) (cf_ladder cf).
+Definition iter_table_fn (cf : config) (sh : list (list cval)) : list (option obj) * option err :=
+  let (items, e) := read_table_m (mc_one cf) sh in unpack_one items e.
 
 (* ------------------------------------------------------------------ *)
 (* XlsObject.get_attr_origin(attr_name, range_key, strict=...)         *)
@@ -572,3 +668,27 @@ Definition get_attr_origin (o : obj) (attr : option nat) (key : option str) (str
           end
       end
   end.
+
+(* self._src_ws_name = anchor_cell.parent.title, quoted when it contains a space *)
+Definition ws_name (title : str) : str :=
+  if existsb (Z.eqb 32) title then [39] ++ title ++ [39] else title.
+
+(* get_attr_origin(attr_name, range_key, incl_ws=..., strict=...) of an object read from the worksheet
+   titled [title]: ws_prefix = f"{self._src_ws_name} " if incl_ws else "" is put in front of every
+   returned text (coordinate, range text, marker, 'n/a'); the exceptions are the same *)
+Definition get_attr_origin_ws (o : obj) (title : str) (attr : option nat) (key : option str)
+           (incl_ws strict : bool) : res str :=
+  match get_attr_origin o attr key strict with
+  | Ok s => Ok (if incl_ws then ws_name title ++ [32] ++ s else s)
+  | Err e => Err e
+  end.
+
+(* str(obj) = f"<{type(self).__name__}({self._src_ws_name} {self._anchor_cell_coord}) {self.logic_id}>"
+   without the "{self.logic_id}>" part; the anchor cell is the cell of the first attribute *)
+Definition obj_head (cname title : str) (o : obj) : str :=
+  [60] ++ cname ++ [40] ++ ws_name title ++ [32] ++
+  match o_attrs o with
+  | (_, OCell r c) :: _ => coord_text r c
+  | _ => []                                   (* unreachable: construct insists on a cell *)
+  end ++ [41; 32].
+
